@@ -33,6 +33,7 @@ pub fn dispatch(args: &[String]) -> i32 {
         "replay" => crate::replay::replay(&args[1..]),
         "sched-worker" => crate::sched::worker_main(&args[1..]),
         "sched-scan" => crate::sched::scan(&args[1..]),
+        "sched-xcheck" => crate::sched::xcheck(&args[1..]),
         "selfcheck" => selfcheck(),
         "bench-par1" => {
             let fam = family("TM-B4");
@@ -252,13 +253,16 @@ fn c02(tier: &str) -> i32 {
     plans.extend(plans_c05(th, &full, &c3));
     let (agg, scopes, complete) = run_plans(&rep, &["C02"], &plans, deadline(&rep, 55, 1500));
     let (par_cov, par_ok) = crate::sched::c02_parallel_part(&rep);
-    let mut cov_extra = json!({"parallel_part": par_cov});
+    let (all_cov, all_ok, _, _) = crate::sched::all_part(&rep, "C02", crate::sched::CutMode::None, false, false, 8.0, 600.0);
+    let par_ok = par_ok && all_ok;
+    let mut cov_extra = json!({"parallel_part": par_cov, "all": all_cov});
     let _ = &mut cov_extra;
     let mut cov = cov_common(&agg, scopes, complete && par_ok);
     cov["evaluations"] = json!(agg.runs + agg.cut_runs);
     cov["distinct_nontrivial"] = json!(agg.nontrivial + agg.cut_nontrivial);
     cov["rule"] = json!("sequential part: every run of the C01 space (uninterrupted) and of the C05 space (cut off at every poll index k) is judged by the solution oracle: value present <=> solution present, Completion.best_value == best_value() == best_lower_bound(), <= 1 decision per variable, model-side replay of the decisions (domain membership at each step) sums to exactly the value, after an uninterrupted run best_upper_bound() == value (== lb == isize::MIN when infeasible); non-trivial = uninterrupted runs with >= 2 sub-problems + interrupted runs which had explored >= 1 sub-problem; parallel part: see parallel_part (all schedules up to a pre-emption bound on the real ParallelSolver)");
     cov["parallel_part"] = cov_extra["parallel_part"].clone();
+    cov["all_interleavings_part"] = cov_extra["all"].clone();
     if let Some(st) = cov["parallel_part"].get("states").cloned() { cov["states"] = st; }
     if let Some(st) = cov["parallel_part"].get("transitions").cloned() { cov["transitions"] = st; }
     if let Some(st) = cov["parallel_part"].get("traces_validated_against_impl").cloned() { cov["traces_validated_against_impl"] = st; }
@@ -306,8 +310,10 @@ fn c05(tier: &str) -> i32 {
     let plans = plans_c05(th, &Cfg::full(&W4), &Cfg::full(&W3));
     let (agg, scopes, complete) = run_plans(&rep, &["C05"], &plans, deadline(&rep, 40, 1200));
     let (par_cov, par_ok) = crate::sched::c05_parallel_part(&rep);
+    let (all_cov, all_ok, _, _) = crate::sched::all_part(&rep, "C05", crate::sched::CutMode::EveryPoll, false, false, 12.0, 1200.0);
     let (a1, s1, c1) = run_plans(&rep, &["C05"], &par1_plans(th, Mode::Cutoffs, false), deadline(&rep, 12, 600));
-    let mut cov = cov_common(&agg, scopes, complete && par_ok && c1);
+    let mut cov = cov_common(&agg, scopes, complete && par_ok && c1 && all_ok);
+    cov["all_interleavings_part"] = all_cov;
     cov["parallel_single_worker_part"] = par1_cov(&a1, s1, c1);
     cov["evaluations"] = json!(agg.cut_runs + a1.cut_runs);
     cov["distinct_nontrivial"] = json!(agg.cut_nontrivial);
@@ -356,8 +362,10 @@ fn c09(tier: &str) -> i32 {
     }
     let (agg, scopes, complete) = run_plans(&rep, &["C09"], &plans, deadline(&rep, 40, 1200));
     let (par_cov, par_ok) = crate::sched::c09_parallel_part(&rep);
+    let (all_cov, all_ok, _, _) = crate::sched::all_part(&rep, "C09", crate::sched::CutMode::None, false, true, 10.0, 900.0);
     let (a1, s1, c1) = run_plans(&rep, &["C09"], &par1_plans(th, Mode::Plain, false), deadline(&rep, 12, 600));
-    let mut cov = cov_common(&agg, scopes, complete && par_ok && c1);
+    let mut cov = cov_common(&agg, scopes, complete && par_ok && c1 && all_ok);
+    cov["all_interleavings_part"] = all_cov;
     cov["parallel_single_worker_part"] = par1_cov(&a1, s1, c1);
     cov["evaluations"] = json!(agg.runs);
     cov["distinct_nontrivial"] = json!(agg.cache_twin_diff_explored);
@@ -389,8 +397,10 @@ fn c14(tier: &str) -> i32 {
     }
     let (agg, scopes, complete) = run_plans(&rep, &["C14"], &plans, deadline(&rep, 40, 1200));
     let (par_cov, par_ok) = crate::sched::c14_parallel_part(&rep);
+    let (all_cov, all_ok, _, _) = crate::sched::all_part(&rep, "C14", crate::sched::CutMode::None, true, false, 8.0, 600.0);
     let (a1, s1, c1) = run_plans(&rep, &["C14"], &par1_plans(th, Mode::Primal, false), deadline(&rep, 15, 600));
-    let mut cov = cov_common(&agg, scopes, complete && par_ok && c1);
+    let mut cov = cov_common(&agg, scopes, complete && par_ok && c1 && all_ok);
+    cov["all_interleavings_part"] = all_cov;
     cov["parallel_single_worker_part"] = par1_cov(&a1, s1, c1);
     cov["evaluations"] = json!(agg.primal_runs);
     cov["distinct_nontrivial"] = json!(agg.primal_below_opt);
